@@ -1,6 +1,7 @@
 package render
 
 import (
+	chart "helm.sh/helm/v4/pkg/chart/v2"
 	"bytes"
 	"fmt"
 	"strings"
@@ -325,24 +326,13 @@ func ObserveRoute(a *Acc, m *Materialised, seed int64) {
 	if err != nil {
 		return
 	}
-	sim := simcluster.New()
-	f := &simcluster.Factory{RT: sim.Transport(1), Namespace: batchNS}
-	mem := driver.NewMemory()
-	mem.SetNamespace(batchNS)
-	cfg := &action.Configuration{
-		RESTClientGetter: &simcluster.Getter{F: f},
-		KubeClient:       &noWait{&kube.Client{Factory: f, Namespace: batchNS}},
-		Releases:         storage.Init(mem),
-		Capabilities:     chartutil.DefaultCapabilities.Copy(),
+	o := routeRender(m, ch, false)
+	if m.Case.uses("LOOK") { // lookup legitimately sees the cluster on this route: the render only leaves its history
+		a.mu.Lock()
+		a.Runs++
+		a.mu.Unlock()
+		return
 	}
-	in := action.NewInstall(cfg)
-	in.DryRunOption = "server"
-	in.ReleaseName, in.Namespace = "rel", "ns"
-	in.SubNotes, in.EnableDNS = m.Case.SubNotes, m.Case.DNS
-	in.WaitStrategy = kube.HookOnlyStrategy
-	var o One
-	rel, err := in.Run(ch, map[string]interface{}{})
-	o.fill(m, rel, err)
 	if got, want := o.Triple(), first.Triple(); got != want {
 		detail := ""
 		if o.Err != first.Err {
@@ -361,4 +351,30 @@ func ObserveRoute(a *Acc, m *Materialised, seed int64) {
 	a.mu.Lock()
 	a.Runs++
 	a.mu.Unlock()
+}
+
+// routeRender: one install through a Configuration with a cluster connection, --dry-run=server.
+func routeRender(m *Materialised, ch *chart.Chart, disableHooks bool) One {
+	sim := simcluster.New()
+	sim.Put(simcluster.Key{Group: "", Version: "v1", Resource: "secrets", Namespace: "ns", Name: "probe"},
+		map[string]interface{}{"metadata": map[string]interface{}{}, "data": map[string]interface{}{"k": "dg=="}})
+	f := &simcluster.Factory{RT: sim.Transport(1), Namespace: batchNS}
+	mem := driver.NewMemory()
+	mem.SetNamespace(batchNS)
+	cfg := &action.Configuration{
+		RESTClientGetter: &simcluster.Getter{F: f},
+		KubeClient:       &noWait{&kube.Client{Factory: f, Namespace: batchNS}},
+		Releases:         storage.Init(mem),
+		Capabilities:     chartutil.DefaultCapabilities.Copy(),
+	}
+	in := action.NewInstall(cfg)
+	in.DryRunOption = "server"
+	in.ReleaseName, in.Namespace = "rel", "ns"
+	in.SubNotes, in.EnableDNS = m.Case.SubNotes, m.Case.DNS
+	in.DisableHooks = disableHooks
+	in.WaitStrategy = kube.HookOnlyStrategy
+	var o One
+	rel, err := in.Run(ch, map[string]interface{}{})
+	o.fill(m, rel, err)
+	return o
 }
